@@ -1,9 +1,11 @@
 #!/bin/bash
 # C12: share-group acknowledgements are single, ordered and honoured.
-# Two binaries, ONE evidence file (/verif/evidence/C12.json):
+# Three binaries, ONE evidence file (/verif/evidence/C12.json):
 #   Q + Q2  in-package harness in pkg/kgo (hooks/inpkg/c12_kgo_test.go) -> $C12Q_OUT
+#   S       engine-S harness (checks/c12/s) over the acknowledgement core extracted from
+#           $REPO/pkg/kgo/consumer_share.go and ring.go -> $C12S_OUT
 #   N       engine-N test binary (checks/c12, scenarios in checks/c12/sscen); nrun writes
-#           the evidence after merging the Q summary (nrun.MergeSummary in Check.Extra)
+#           the evidence after merging both summaries (nrun.MergeSummary in Check.Extra)
 # Replay: checks/c12/run.sh --replay /verif/violations/C12/<file>.json
 set -u
 cd "$(dirname "$0")/../.."
@@ -11,8 +13,19 @@ cd "$(dirname "$0")/../.."
 fail() { echo "INFRA-ERROR: $*" >&2; exit 2; }
 inpkg_test pkg/kgo "$VERIF_ROOT/hooks/inpkg/c12_kgo_test.go" "$BUILD/c12_q.test" || fail "build of the in-package harness failed"
 go test -c -tags synctests,verif -o "$BUILD/c12.test" ./checks/c12 || fail "build of the engine-N binary failed"
+# engine S: extract the acknowledgement core from the tree being checked
+G="$BUILD/c12gen"; mkdir -p "$G"
+go build -o "$BUILD/extract" ./cmd/extract || fail "build of cmd/extract failed"
+bin/extract_imports.sh "$REPO/pkg/kgo/ring.go" "$G/ring.go" main || exit 2
+"$BUILD/extract" -src "$REPO/pkg/kgo/consumer_share.go" -pkg main -out "$G/share.go" -imports '"cmp";"context";"slices"' \
+  -decls "shareAckState.tryAck,shareAckState.appendAck,shareCursor.drainAcks,shareCursor.enqueueGaps,buildAckRanges,coalesceAppendRange,shareConsumer.subtractPendingAcks,shareConsumer.enqueueCallback,shareConsumer.drainCallbacks,Client.FlushAcks" || exit 2
+printf '{"Replace":{"%s":"%s","%s":"%s"}}\n' "$VERIF_ROOT/checks/c12/s/zz_ring.go" "$G/ring.go" "$VERIF_ROOT/checks/c12/s/zz_share.go" "$G/share.go" > "$G/overlay.json"
+go build -overlay "$G/overlay.json" -o "$BUILD/c12s" ./checks/c12/s || { echo "EXTRACTION-ERROR: the extracted acknowledgement core no longer compiles against the stubs of checks/c12/s" >&2; exit 2; }
 if [ "${1:-}" = "--replay" ]; then
   art="$(readlink -f "$2")"
+  if grep -q '"part": *"S"' "$art"; then
+    VERIF_REPLAY="$art" exec "$BUILD/c12s"
+  fi
   if grep -q '"part": *"Q' "$art"; then
     C12_REPLAY="$art" exec "$BUILD/c12_q.test" -test.run '^TestVerifC12$' -test.timeout 0
   fi
@@ -23,4 +36,9 @@ rm -f "$C12Q_OUT"
 "$BUILD/c12_q.test" -test.run '^TestVerifC12$' -test.timeout 0
 rc=$?
 [ $rc -eq 0 ] && [ -s "$C12Q_OUT" ] || fail "in-package harness exited $rc"
+export C12S_OUT="$BUILD/c12_s.json"
+rm -f "$C12S_OUT"
+"$BUILD/c12s"
+rc=$?
+[ $rc -eq 0 ] && [ -s "$C12S_OUT" ] || fail "engine-S harness exited $rc"
 exec "$BUILD/c12.test" -test.run '^TestC12$' -test.timeout 0
